@@ -8,7 +8,7 @@
      point are further apart than 2R or one has all its vertices strictly inside the other (uses the
      completeness of the polygon pair test, props/C12.v). *)
 From Coq Require Import ZArith List Bool Reals Lra. Import ListNotations.
-From PV Require Import Num NumR model.Geom proofs.LatticeFacts proofs.SiteFacts proofs.OverlapFacts proofs.ConvexFacts proofs.PackingFacts proofs.PolygonFacts.
+From PV Require Import Num NumR model.Geom proofs.LatticeFacts proofs.SiteFacts proofs.OverlapFacts proofs.ConvexFacts proofs.PackingFacts proofs.PolygonFacts proofs.RadiusFacts.
 
 Theorem C01_scored_disc_packing_has_no_overlap :
   forall (st : pstateR) (l : list discR), wf_state st -> rigid_inputs st -> p_shape NumR st =
@@ -82,4 +82,26 @@ Theorem C01_scored_convex_polygon_packing :
     -> strictly_inside sP P (seg_start f)).
 Proof. exact scored_convex_polygon_packing. Qed.
 Print Assumptions C01_scored_convex_polygon_packing.
+
+Theorem C01_mol_radius_encloses :
+  forall (fmin_ : R) (l : list discR), Forall (fun d : discR => (0 < dr NumR d)%R) l -> enclosed
+    (mol_radius NumR fmin_ l) l.
+Proof. exact mol_radius_encloses. Qed.
+Print Assumptions C01_mol_radius_encloses.
+
+Theorem C01_poly_radius_encloses :
+  forall (fmin_ : R) (l : list segR) (e : segR), In e l -> (sqrt (sx1 NumR e * sx1 NumR e + sy1
+    NumR e * sy1 NumR e) <= poly_radius NumR fmin_ l)%R.
+Proof. exact poly_radius_encloses. Qed.
+Print Assumptions C01_poly_radius_encloses.
+
+Theorem C01_scored_disc_packing_computed_radius :
+  forall (st : pstateR) (l : list discR) (fmin_ : R), wf_state st -> rigid_inputs st -> p_shape
+    NumR st = Mol l -> Forall (fun d : discR => (0 < dr NumR d)%R) l -> p_radius NumR st =
+    shape_radius NumR fmin_ (p_shape NumR st) -> packed_score NumR st <> None -> forall (i j :
+    nat) (n m : Z), i < length (p_syms NumR st) -> j < length (p_syms NumR st) -> ~ (i = j /\ n
+    = 0%Z /\ m = 0%Z) -> forall p : R * R, ~ (in_mol (placed_mol (copy st i) l) p /\ in_mol
+    (placed_mol (image st j n m) l) p).
+Proof. exact scored_disc_packing_has_no_overlap_computed_radius. Qed.
+Print Assumptions C01_scored_disc_packing_computed_radius.
 
